@@ -251,6 +251,9 @@ def _simple_key(k: ast.AST) -> bool:
     return True
 
 
+_BUILTIN_ATTRS = frozenset(a for t in (str, bytes, list, tuple, dict, set, frozenset, int) for a in dir(t) if not a.startswith("_"))
+
+
 def _namedtuple_fields(model):
     """({class qname: ([field names], {field: default})}, {field name: index}) -- the second map only holds fields whose name is used
     for nothing else in the package (no other class attribute / annotation / method / stored attribute of that name) and that sit at
@@ -488,12 +491,18 @@ class _Expr(ast.NodeTransformer):
         # result.hit  ->  result[0]   for a field of a typing.NamedTuple whose name means nothing else in the package
         if isinstance(n.ctx, ast.Load):
             ix = _namedtuple_fields(self.t.model)[1].get(n.attr)
+            if ix is not None and getattr(n, "_called_builtin_method", False):
+                # `mnemonic.lower()` next to a NamedTuple field called `lower`: a field holds data and is read, the method of a
+                # builtin type is called -- the call form is left alone
+                ix = None
             if ix is not None:
                 self.changed = True
                 return ast.copy_location(ast.Subscript(value=n.value, slice=ast.Constant(value=ix), ctx=ast.Load()), n)
         return n
 
     def visit_Call(self, n: ast.Call):
+        if isinstance(n.func, ast.Attribute) and n.func.attr in _BUILTIN_ATTRS:
+            n.func._called_builtin_method = True
         self.generic_visit(n)
         f = n.func
         # Pair(a, b) for a typing.NamedTuple class  ->  (a, b)    (a named tuple *is* the tuple; only its repr differs)
@@ -1527,7 +1536,14 @@ def _while_to_for(node) -> bool:
                                                                              or (isinstance(t.ops[0], ast.GtE) and t.comparators[0].value == 1)
                                                                              or (isinstance(t.ops[0], ast.NotEq) and t.comparators[0].value == 0 and False)):
                     countdown = not any(isinstance(n, ast.Name) and n.id == i for b_ in body for n in ast.walk(b_))
-                ok = (bound is not None or countdown) and body
+                descending = False
+                if step == -1 and not countdown and isinstance(t, ast.Compare) and len(t.ops) == 1 and isinstance(t.left, ast.Name) and t.left.id == i:
+                    c_ = t.comparators[0]
+                    cv = -c_.operand.value if isinstance(c_, ast.UnaryOp) and isinstance(c_.op, ast.USub) and isinstance(c_.operand, ast.Constant) \
+                        and isinstance(c_.operand.value, int) else c_.value if isinstance(c_, ast.Constant) and isinstance(c_.value, int) else None
+                    # `i = A; while i >= 0: BODY; i -= 1`  ->  `for i in range(A, -1, -1): BODY`
+                    descending = (isinstance(t.ops[0], ast.GtE) and cv == 0) or (isinstance(t.ops[0], ast.Gt) and cv == -1)
+                ok = (bound is not None or countdown or descending) and body
                 if ok:
                     for b_ in body:
                         for n in ast.walk(b_):
@@ -1545,6 +1561,10 @@ def _while_to_for(node) -> bool:
                     if countdown:
                         rng = ast.Call(func=ast.Name(id="range", ctx=ast.Load()), args=[init], keywords=[])
                         tgt = ast.Name(id="_", ctx=ast.Store())
+                    elif descending:
+                        m1 = ast.UnaryOp(op=ast.USub(), operand=ast.Constant(value=1))
+                        rng = ast.Call(func=ast.Name(id="range", ctx=ast.Load()), args=[init, m1, copy.deepcopy(m1)], keywords=[])
+                        tgt = ast.Name(id=i, ctx=ast.Store())
                     else:
                         args = [bound] if (isinstance(init, ast.Constant) and init.value == 0) else [init, bound]
                         rng = ast.Call(func=ast.Name(id="range", ctx=ast.Load()), args=args, keywords=[])
